@@ -28,6 +28,8 @@
 (*   X08.Output      what went to App.Out is the command's document        *)
 (*                   (archive, outline, mermaid, swagger, help, new) -     *)
 (*                   nothing when the command writes to files              *)
+(*   X08.NewRoundTrip  the same for a command run on a document written by *)
+(*                   `new`: the header given to `new` is the application's *)
 (*   X08.OutStream   nothing went to the process's stdout behind App.Out   *)
 (*   X08.Repeatable  the same read-only invocation on the same program     *)
 (*                   prints the same document again (sorted lines)         *)
@@ -40,8 +42,8 @@
 EXTENDS CliApp
 
 Trace == ndJsonDeserialize("trace.ndjson")
-VARIABLES l, P, pfs, seen
-tvars == <<l, P, pfs, seen>>
+VARIABLES l, P, gfull, pfs, seen
+tvars == <<l, P, gfull, pfs, seen>>
 
 ProgEmpty == [steps |-> <<>>, def |-> <<>>, cur |-> <<>>, flag |-> <<>>, pn |-> <<>>, hdr |-> NoHdr]
 
@@ -57,8 +59,8 @@ Bump(f, k) == IF k \in DOMAIN f THEN [f EXCEPT ![k] = @ + 1] ELSE (k :> 1) @@ f
 
 \* the tokens are the model's: path arguments are those of the tables
 TokOK(t) ==
-    CASE t.k = "flag" /\ t.n = "folder" /\ t.form # "bare" -> t.vi \in DOMAIN Folders /\ t.v = Folders[t.vi].arg
-      [] t.k = "flag" /\ t.n = "out" /\ t.form # "bare" -> t.vi \in DOMAIN OutFiles /\ t.v = OutFiles[t.vi].arg
+    CASE t.k = "flag" /\ t.n = "folder" /\ t.form # "bare" /\ t.n \notin SeqSet(P.flag) -> t.vi \in DOMAIN Folders /\ t.v = Folders[t.vi].arg
+      [] t.k = "flag" /\ t.n = "out" /\ t.form # "bare" /\ t.n \notin SeqSet(P.flag) -> t.vi \in DOMAIN OutFiles /\ t.v = OutFiles[t.vi].arg
       [] OTHER -> TRUE
 DocArgs == {OutFiles[k].arg : k \in DOMAIN OutFiles}
 InvOK(inv) ==
@@ -69,11 +71,11 @@ InvOK(inv) ==
     /\ inv.gf = "newdoc" => inv.gfa \in DocArgs
 DocPath(inv) == Join(OutFiles[CHOOSE k \in DOMAIN OutFiles : OutFiles[k].arg = inv.gfa].norm)
 
-TInit == TLCSet(1, <<>>) /\ l = 1 /\ P = ProgEmpty /\ pfs = <<>> /\ seen = <<>>
+TInit == TLCSet(1, <<>>) /\ l = 1 /\ P = ProgEmpty /\ gfull = HE!Empty /\ pfs = <<>> /\ seen = <<>>
 
 TReset ==
     /\ l <= Len(Trace) /\ Trace[l].k = "reset"
-    /\ P' = Trace[l].P /\ pfs' = Trace[l].fs /\ seen' = <<>> /\ l' = l + 1
+    /\ P' = Trace[l].P /\ gfull' = Graph(Trace[l].P) /\ pfs' = Trace[l].fs /\ seen' = <<>> /\ l' = l + 1
     /\ LET want == {<<Fixture[i].p, IF Fixture[i].k = "d" THEN "d" ELSE "f">> : i \in DOMAIN Fixture}
            got == {<<e.p, e.k>> : e \in Ents(Trace[l].fs)}
        IN IF want = got THEN TRUE
@@ -81,7 +83,7 @@ TReset ==
 
 \* the editor's API on the saved program with parameter values posted: the archive's entries
 HttpEntries(inv) ==
-    LET full == Graph(P)
+    LET full == gfull
         saved == [full EXCEPT !.val = [n \in full.ids |-> IF P.cur[n + 1] >= 0 THEN P.cur[n + 1] ELSE P.def[n + 1]]]
         posted == {<<CHOOSE n \in full.ids : HE!NodeName(n) = inv.toks[i].n, inv.toks[i].vi>> : i \in DOMAIN inv.toks}
         grE == [saved EXCEPT !.val = [n \in full.ids |-> IF \E q \in posted : q[1] = n
@@ -97,7 +99,7 @@ TInv ==
            routed == InvOK(inv)
            dh == IF routed /\ inv.gf = "newdoc" /\ Has(pfs, DocPath(inv)) THEN DocHdr(At(pfs, DocPath(inv)).d) ELSE NoHdr
            pl == IF isHttp \/ ~routed THEN [class |-> "http", why |-> "http", files |-> {}, dirs |-> {}, out |-> "none"]
-                 ELSE Plan(P, F0, inv, dh)
+                 ELSE PlanG(P, gfull, F0, inv, dh)
            cls == pl.class
            c == IF isHttp THEN "http" ELSE Canon(inv.cmd)
            failed == ln.res = "err" \/ (ln.res = "exit" /\ ln.code # 0)
@@ -132,7 +134,8 @@ TInv ==
               \cup (IF cls = "ok" /\ done /\ ~filesOK THEN {"X08.Files"} ELSE {})
               \cup (IF cls = "ok" /\ done /\ ~dirsOK THEN {"X08.Dirs"} ELSE {})
               \cup (IF cls = "ok" /\ done /\ ~frameOK THEN {"X08.Frame"} ELSE {})
-              \cup (IF cls = "ok" /\ done /\ ~DocOK(pl.out, P, gr0def, pl, ln.oa) THEN {"X08.Output"} ELSE {})
+              \cup (IF cls = "ok" /\ done /\ ~DocOK(pl.out, P, gr0def, pl, ln.oa)
+                    THEN {IF inv.gf = "newdoc" THEN "X08.NewRoundTrip" ELSE "X08.Output"} ELSE {})
               \cup (IF stable /\ key \in DOMAIN seen /\ seen[key] # ln.oa.dgs THEN {"X08.Repeatable"} ELSE {})
               \cup (IF isHttp /\ routed /\ he.ok /\ ~(done /\ ZipOK(he.ents, ln.oa)) THEN {"X08.HttpSame"} ELSE {})
               \cup (IF isHttp /\ ~frameAll THEN {"X08.Frame"} ELSE {})
@@ -141,7 +144,7 @@ TInv ==
           /\ TLCSet(1, Bump(TLCGet(1), cls \o "/" \o c \o "/" \o pl.why))
           /\ seen' = IF stable /\ key \notin DOMAIN seen THEN (key :> ln.oa.dgs) @@ seen ELSE seen
           /\ pfs' = ln.fs
-    /\ P' = P /\ l' = l + 1
+    /\ P' = P /\ gfull' = gfull /\ l' = l + 1
 
 TNext == TReset \/ TInv
 TSpec == TInit /\ [][TNext]_tvars
